@@ -9,7 +9,7 @@ namespace DriverOps
 private def jCsr (j : Json) : R CSR := do
   pure { indptr := ← jList jNat (← jField j "indptr"), indices := ← jList jNat (← jField j "indices"),
          data := ← jList jInt (← jField j "data") }
-private def jDense (j : Json) : R Dense := jList (jList jInt) j
+private def jDense (j : Json) : R DenseM := jList (jList jInt) j
 private def jPair (j : Json) : R (Nat × Nat) := do
   match ← jList jNat j with
   | [a, b] => pure (a, b)
@@ -19,7 +19,7 @@ private def jEnts (j : Json) : R (List Ent) := do
   let c0 ← jList jNat (← jField j "c0"); let c1 ← jList jNat (← jField j "c1"); let d ← jList jInt (← jField j "data")
   if c0.length ≠ d.length ∨ c1.length ≠ d.length then throw "coords/data length"
   pure (c0.zip (c1.zip d))
-private def denseJ (d : Dense) : Json := listJ (listJ intJ) d
+private def denseJ (d : DenseM) : Json := listJ (listJ intJ) d
 private def sparseOutJ (o : SparseOut) : Json :=
   Json.mkObj [("data", listJ intJ o.data), ("indices", listJ natJ o.indices), ("indptr", listJ natJ o.indptr),
               ("alloc", natJ o.alloc)]
